@@ -70,7 +70,7 @@ def scan_header(repo, h):
         types.append((tm.group(3), has_payload))
     for tm in re.finditer(r'struct\s+(\w+)\s*\{([^{}]*)\}\s*__attribute__', text, flags=re.S):
         types.append(('struct ' + tm.group(1), False))
-    return dict(header=h, macros=macros, enums=enums, types=types), None
+    return dict(header=h, macros=macros, enums=enums, types=types, byteorder=bool(re.search(r'\bAvtp_CpuToBe32\s*\(', so))), None
 
 
 def dump_snippet(info, tag):
@@ -135,6 +135,16 @@ def make_tu(headers, infos, formats=None, includes_only=False, lang='c'):
         if formats and h in formats and lang == 'c':
             o.append(probe_snippet(formats[h], tag))
             tags.append('probe_' + tag)
+    if any(infos[h].get('byteorder') for h in headers):
+        # the inline byte-order helpers are compiled into this unit: what they do must not depend on what else was included
+        # or on the order (feature-test macros, libc headers seen earlier); run-time values, not constants
+        o.append('static void probe_byteorder(void) {')
+        o.append('  volatile unsigned long long s = 0x0102030405060708ULL; unsigned long long x = s;')
+        for nm, T in (('CpuToBe', ''), ('BeToCpu', ''), ('CpuToLe', ''), ('LeToCpu', '')):
+            for w in (16, 32, 64):
+                o.append('  printf("avtp/Byteorder.h|probe:%s%d|%%llu\\n", (unsigned long long)Avtp_%s%d((uint%d_t)x));' % (nm, w, nm, w, w))
+        o.append('}')
+        tags.append('probe_byteorder')
     o.append('int main(void) { %s return 0; }' % ' '.join('%s();' % t for t in tags))
     return '\n'.join(o) + '\n'
 
@@ -172,6 +182,16 @@ class Runner:
         rc, so, se = sh(base + ['-c', src2, '-o', exe + '.2.o'])
         if rc != 0:
             return 'compile-error', norm_diag(se), se[:1500]
+        # the same unit with the compiler's default diagnostics as errors: a declaration whose meaning depends on what was
+        # included before (a struct tag first seen inside a parameter list, a conflicting redeclaration that is only a
+        # warning) is diagnosed by default; the pinned headers are free of default diagnostics in every combination
+        rc, so, se = sh([x for x in base if x != '-w'] + ['-Werror', '-c', src2, '-o', exe + '.3.o'])
+        try:
+            os.unlink(exe + '.3.o')
+        except OSError:
+            pass
+        if rc != 0:
+            return 'compile-error', 'default-warning: ' + norm_diag(se), se[:1500]
         cur = {h: infos[h] for h in headers}
         dropped = set()
         for attempt in range(8):
